@@ -293,6 +293,17 @@ theorem fragmenter_eq_fragment (env : Env) (a : Annotation) (mono : Bool) (args 
     (Fragmenter.new env a mono).fragment args = fragment env a { args with monoisotopic := mono } none := by
   simp [Fragmenter.fragment, Fragmenter.new, fragment, mkJob]
 
+/-- The model's `Fragmenter` carries no state besides the annotation, the mass mode and the components: whatever
+sequence of requests is issued on ONE object (any order, repeats, two objects interleaved), each answer is what the
+stateless `fragment` gives for that request alone — answers do not depend on the history of the object.
+(`./check C04` drives the real `Fragmenter` through such sequences: oracle `fragmenter_history`.) -/
+theorem fragmenter_history (env : Env) (a : Annotation) (mono : Bool) (reqs : List Args) :
+    reqs.map (Fragmenter.new env a mono).fragment =
+      reqs.map (fun args => fragment env a { args with monoisotopic := mono } none) :=
+  List.map_congr_left (fun args _ => fragmenter_eq_fragment env a mono args)
+
+example : [exArgs, { exArgs with ionTypes := .one .BY }, exArgs].length = 3 := rfl
+
 /-! ## 6. numbering and labels -/
 
 /-- `Fragment.number` of a returned ion: prefix ions (a, b, c) carry the number of residues counted from the
